@@ -47,7 +47,10 @@ def run(c, facts, tier):
                         c.ob("C15.ambient", mir.e1_key(p, facts) or p, name, False, "call into ambient state `%s`: the result of parse/compile would depend on it" % name, witness="run twice in different processes/environments")
                     break
     owners = sorted({mir.e1_key(p, facts) or p for p, _ in clock_sites})
-    c.ob("C15.ambient", "crate", "the only ambient read is one clock read in the time-test generator", owners == ["scheme::target_scheme::compile_time_comp"] and len(clock_sites) == 1, "clock reads: %s (%d site(s)); other ambient calls are reported individually" % (owners, len(clock_sites)))
+    troots = [p_ for p_ in m.bodies if mir.e1_key(p_, facts) == "<Test as TargetScheme>::compile"]
+    treach = m.reachable(troots)
+    in_tests = bool(clock_sites) and all(p_ in treach for p_, _ in clock_sites)
+    c.ob("C15.ambient", "crate", "the only ambient read is one clock read in the time-test generator", in_tests and len(clock_sites) == 1, "clock reads: %s (%d site(s)); other ambient calls are reported individually" % (owners, len(clock_sites)))
     c.analysed["call_edges"] = sum(len(x["calls"]) for x in m.bodies.values())
     c.analysed["mir_bodies"] = len(m.bodies)
     # ---------------------------------------------------------------- no-state
